@@ -65,6 +65,7 @@ func TestOracleAcceptsNetHTTP(t *testing.T) {
 		}
 	}
 	flag.Set("rapid.nofailfile", "true")
+	flag.Set("rapid.checks", "3000") // whatever the previous kit.Check left there
 	rapid.Check(t, func(rt *rapid.T) {
 		n := genLen(rt)
 		h := genRangeHeader(rt, n)
